@@ -326,6 +326,17 @@ macro_rules! range_impl {
                             Err(()) => out.push(ERR_STATE),
                         }
                     }
+                    28 => {
+                        // the decoder is taken apart and reassembled from its own raw parts
+                        let (bulk, st, point) = d.clone().into_raw_parts();
+                        match RangeDecoder::from_raw_parts(bulk, st, point) {
+                            Ok(d2) => {
+                                d = d2;
+                                out.push(0);
+                            }
+                            Err(_) => out.push(ERR_RAW),
+                        }
+                    }
                     other => panic!("harness: unknown range decoder op {}", other),
                 }
             }
